@@ -89,15 +89,8 @@ hostile peer arriving, replacing each other, ending abruptly, in any interleavin
 else's -- the entry of peer `q` is the one reached by the operations about `q` alone. -/
 theorem C06_registry_isolation (own : PeerId) (ops : List Op) (s s' : Active) (q : PeerId)
     (hs : lookupConn s.conns q = lookupConn s'.conns q) :
-    lookupConn (s.run own ops).conns q = lookupConn (s'.run own (ops.filter (fun o => o.peer = q))).conns q := by
-  induction ops generalizing s s' with
-  | nil => simpa [Active.run] using hs
-  | cons op t ih =>
-    by_cases h : op.peer = q
-    · simp only [Active.run, List.foldl_cons, List.filter_cons, h, decide_true, if_true]
-      exact ih _ _ (step_lookup_same own s s' op q h hs)
-    · simp only [Active.run, List.foldl_cons, List.filter_cons, h, decide_false]
-      exact ih _ _ (by rw [step_lookup_ne own s op q h]; exact hs)
+    lookupConn (s.run own ops).conns q = lookupConn (s'.run own (ops.filter (fun o => o.peer = q))).conns q :=
+  Active.run_lookup_project own ops s s' q hs
 
 /-- **... and so are the events**: the subscriber sees, about peer `q`, exactly the events the operations
 about `q` alone would have produced -- a hostile peer cannot fabricate, suppress or reorder them. -/
